@@ -16,6 +16,12 @@ model/Kernel.vos model/Kernel.vok model/Kernel.required_vos: model/Kernel.v
 model/KernelF64.vo model/KernelF64.glob model/KernelF64.v.beautified model/KernelF64.required_vo: model/KernelF64.v lib/Fp.vo model/Kernel.vo
 model/KernelF64.vio: model/KernelF64.v lib/Fp.vio model/Kernel.vio
 model/KernelF64.vos model/KernelF64.vok model/KernelF64.required_vos: model/KernelF64.v lib/Fp.vos model/Kernel.vos
+model/Leapfrog.vo model/Leapfrog.glob model/Leapfrog.v.beautified model/Leapfrog.required_vo: model/Leapfrog.v 
+model/Leapfrog.vio: model/Leapfrog.v 
+model/Leapfrog.vos model/Leapfrog.vok model/Leapfrog.required_vos: model/Leapfrog.v 
+model/LeapfrogQc.vo model/LeapfrogQc.glob model/LeapfrogQc.v.beautified model/LeapfrogQc.required_vo: model/LeapfrogQc.v model/Leapfrog.vo
+model/LeapfrogQc.vio: model/LeapfrogQc.v model/Leapfrog.vio
+model/LeapfrogQc.vos model/LeapfrogQc.vok model/LeapfrogQc.required_vos: model/LeapfrogQc.v model/Leapfrog.vos
 proofs/Schedule_facts.vo proofs/Schedule_facts.glob proofs/Schedule_facts.v.beautified proofs/Schedule_facts.required_vo: proofs/Schedule_facts.v lib/Fp.vo model/Schedule.vo
 proofs/Schedule_facts.vio: proofs/Schedule_facts.v lib/Fp.vio model/Schedule.vio
 proofs/Schedule_facts.vos proofs/Schedule_facts.vok proofs/Schedule_facts.required_vos: proofs/Schedule_facts.v lib/Fp.vos model/Schedule.vos
@@ -34,3 +40,6 @@ Properties/C03.vos Properties/C03.vok Properties/C03.required_vos: Properties/C0
 Properties/C17.vo Properties/C17.glob Properties/C17.v.beautified Properties/C17.required_vo: Properties/C17.v lib/Fp.vo model/Kernel.vo model/KernelF64.vo
 Properties/C17.vio: Properties/C17.v lib/Fp.vio model/Kernel.vio model/KernelF64.vio
 Properties/C17.vos Properties/C17.vok Properties/C17.required_vos: Properties/C17.v lib/Fp.vos model/Kernel.vos model/KernelF64.vos
+Properties/C02.vo Properties/C02.glob Properties/C02.v.beautified Properties/C02.required_vo: Properties/C02.v model/Leapfrog.vo model/LeapfrogQc.vo
+Properties/C02.vio: Properties/C02.v model/Leapfrog.vio model/LeapfrogQc.vio
+Properties/C02.vos Properties/C02.vok Properties/C02.required_vos: Properties/C02.v model/Leapfrog.vos model/LeapfrogQc.vos
